@@ -123,7 +123,7 @@ Definition q_autostyles := q_office "automatic-styles".
 
 (* contentxml() *)
 Definition contentxml (d : odfdoc) : str :=
-  let stylelist := used_auto_styles refattrs [d_styles d; d_auto d; d_body d] (d_auto d) in
+  let stylelist := used_auto_styles refattrs [d_styles d; d_body d] (d_auto d) in
   prologue ++ write_open_tag filtered env true (q_office "document-content") version_att ++
   opt_section (d_scripts d) ++ opt_section (d_ffd d) ++
   (match stylelist with
